@@ -109,8 +109,7 @@ pub proof fn lemma_pending_done(rs: Map<u64, BlockTranslationResult>, q: Seq<u64
     assert(covered(rs, q, None, fa));
     assert(rs.contains_key(fa));
     assert forall|i: int, t: bool| 0 <= i < o.manual_edges@.len() implies rs.contains_key(#[trigger] me_end(o, i, t)) by {
-        assert(covered(rs, q, None, me_head(o, i)));
-        assert(covered(rs, q, None, me_tail(o, i)));
+        assert(covered(rs, q, None, me_end(o, i, t)));
     }
     assert forall|k: u64, i: int| rs.contains_key(k) && 0 <= i < rs[k].successors@.len() implies rs.contains_key((#[trigger] rs[k].successors@[i]).0) by {
         assert(covered(rs, q, None, rs[k].successors@[i].0));
@@ -121,22 +120,21 @@ pub proof fn lemma_pending_done(rs: Map<u64, BlockTranslationResult>, q: Seq<u64
 pub proof fn lemma_enqueue_step(q: Seq<u64>, o: Options, n: int)
     requires
         0 <= n < o.manual_edges@.len(),
-        forall|j: int| 0 <= j < n ==> q.contains(#[trigger] me_head(o, j)) && q.contains(me_tail(o, j)),
+        forall|j: int, t: bool| 0 <= j < n ==> q.contains(#[trigger] me_end(o, j, t)),
     ensures
-        forall|j: int| 0 <= j < n + 1 ==> q.push(me_head(o, n)).push(me_tail(o, n)).contains(#[trigger] me_head(o, j)) && q.push(me_head(o, n)).push(me_tail(o, n)).contains(me_tail(o, j)),
+        forall|j: int, t: bool| 0 <= j < n + 1 ==> q.push(me_head(o, n)).push(me_tail(o, n)).contains(#[trigger] me_end(o, j, t)),
 {
     let q1 = q.push(me_head(o, n));
     let q2 = q1.push(me_tail(o, n));
     lemma_q_push(q, me_head(o, n));
     lemma_q_push(q1, me_tail(o, n));
-    assert forall|j: int| 0 <= j < n + 1 implies q2.contains(#[trigger] me_head(o, j)) && q2.contains(me_tail(o, j)) by {
+    assert forall|j: int, t: bool| 0 <= j < n + 1 implies q2.contains(#[trigger] me_end(o, j, t)) by {
         if j < n {
-            assert(q.contains(me_head(o, j)));
-            assert(q.contains(me_tail(o, j)));
-            assert(q1.contains(me_head(o, j)));
-            assert(q1.contains(me_tail(o, j)));
-            assert(q2.contains(me_head(o, j)));
-            assert(q2.contains(me_tail(o, j)));
+            assert(q.contains(me_end(o, j, t)));
+            assert(q1.contains(me_end(o, j, t)));
+            assert(q2.contains(me_end(o, j, t)));
+        } else if t {
+            assert(q2.contains(me_tail(o, n)));
         } else {
             assert(q1.contains(me_head(o, n)));
             assert(q2.contains(me_head(o, n)));
@@ -148,13 +146,12 @@ pub proof fn lemma_enqueue_step(q: Seq<u64>, o: Options, n: int)
 pub proof fn lemma_pending_init(rs: Map<u64, BlockTranslationResult>, q: Seq<u64>, o: Options, fa: u64)
     requires
         rs == Map::<u64, BlockTranslationResult>::empty(), q.contains(fa),
-        forall|j: int| 0 <= j < o.manual_edges@.len() ==> q.contains(#[trigger] me_head(o, j)) && q.contains(me_tail(o, j)),
+        forall|j: int, t: bool| 0 <= j < o.manual_edges@.len() ==> q.contains(#[trigger] me_end(o, j, t)),
     ensures pending_inv(rs, q, None, o, fa),
 {
     reveal(covered);
     assert forall|i: int, t: bool| 0 <= i < o.manual_edges@.len() implies covered(rs, q, None, #[trigger] me_end(o, i, t)) by {
-        assert(q.contains(me_head(o, i)));
-        assert(q.contains(me_tail(o, i)));
+        assert(q.contains(me_end(o, i, t)));
     }
 }
 
@@ -196,10 +193,8 @@ pub proof fn lemma_pending_pop(rs: Map<u64, BlockTranslationResult>, q: Seq<u64>
     let cur = Some(q[0]);
     lemma_covered_pop(rs, q, fa);
     assert forall|i: int, t: bool| 0 <= i < o.manual_edges@.len() implies covered(rs, q2, cur, #[trigger] me_end(o, i, t)) by {
-        assert(covered(rs, q, None, me_head(o, i)));
-        assert(covered(rs, q, None, me_tail(o, i)));
-        lemma_covered_pop(rs, q, me_head(o, i));
-        lemma_covered_pop(rs, q, me_tail(o, i));
+        assert(covered(rs, q, None, me_end(o, i, t)));
+        lemma_covered_pop(rs, q, me_end(o, i, t));
     }
     assert forall|k: u64, i: int| rs.contains_key(k) && 0 <= i < rs[k].successors@.len() implies covered(rs, q2, cur, (#[trigger] rs[k].successors@[i]).0) by {
         assert(covered(rs, q, None, rs[k].successors@[i].0));
@@ -215,10 +210,8 @@ pub proof fn lemma_pending_skip(rs: Map<u64, BlockTranslationResult>, q: Seq<u64
     reveal(covered);
     assert(covered(rs, q, None, fa));
     assert forall|i: int, t: bool| 0 <= i < o.manual_edges@.len() implies covered(rs, q, None, #[trigger] me_end(o, i, t)) by {
-        assert(covered(rs, q, Some(x), me_head(o, i)));
-        assert(covered(rs, q, Some(x), me_tail(o, i)));
-        assert(covered(rs, q, None, me_head(o, i)));
-        assert(covered(rs, q, None, me_tail(o, i)));
+        assert(covered(rs, q, Some(x), me_end(o, i, t)));
+        assert(covered(rs, q, None, me_end(o, i, t)));
     }
     assert forall|k: u64, i: int| rs.contains_key(k) && 0 <= i < rs[k].successors@.len() implies covered(rs, q, None, (#[trigger] rs[k].successors@[i]).0) by {
         assert(covered(rs, q, Some(x), rs[k].successors@[i].0));
@@ -244,10 +237,8 @@ pub proof fn lemma_pending_insert(rs: Map<u64, BlockTranslationResult>, q: Seq<u
     let rs2 = rs.insert(x, b);
     lemma_covered_insert(rs, q, q2, x, b, fa);
     assert forall|i: int, t: bool| 0 <= i < o.manual_edges@.len() implies covered(rs2, q2, None, #[trigger] me_end(o, i, t)) by {
-        assert(covered(rs, q, Some(x), me_head(o, i)));
-        assert(covered(rs, q, Some(x), me_tail(o, i)));
-        lemma_covered_insert(rs, q, q2, x, b, me_head(o, i));
-        lemma_covered_insert(rs, q, q2, x, b, me_tail(o, i));
+        assert(covered(rs, q, Some(x), me_end(o, i, t)));
+        lemma_covered_insert(rs, q, q2, x, b, me_end(o, i, t));
     }
     assert forall|k: u64, i: int| rs2.contains_key(k) && 0 <= i < rs2[k].successors@.len() implies covered(rs2, q2, None, (#[trigger] rs2[k].successors@[i]).0) by {
         if k != x {
